@@ -389,9 +389,6 @@ def jobs : List Job := [
   -- without the zone byte '%': the shortest difference in the dotted-quad forms
   jobR "ipv6_nopct" Fmt.ipv6 "Fmt.ipv6" "pat_ipv6" (lookupRe "ipv6" 0 true) [37] Fmt.nonHexLetters,
   jobR "cidrv6_nopct" Fmt.cidrv6 "Fmt.cidrv6" "pat_cidrv6" (lookupRe "cidrv6" 0 true) [37] Fmt.nonHexLetters,
-  -- without '%' and '.': the pattern is RFC 4291
-  jobR "ipv6_partial" Fmt.ipv6Hex "Fmt.ipv6Hex" "pat_ipv6" (lookupRe "ipv6" 0 true) [46, 37] Fmt.nonHexLetters,
-  jobR "cidrv6_partial" Fmt.cidrv6Hex "Fmt.cidrv6Hex" "pat_cidrv6" (lookupRe "cidrv6" 0 true) [46, 37] Fmt.nonHexLetters,
   -- without '%', with '.': RFC 4291 outside the dotted-quad defect region
   jobRE "ipv6_dot" Fmt.ipv6Q Fmt.ipv6QuadDefect "Fmt.ipv6Q" "Fmt.ipv6QuadDefect" "pat_ipv6" (lookupRe "ipv6" 0 true) [37] Fmt.nonHexLetters,
   jobRE "cidrv6_dot" Fmt.cidrv6Q Fmt.cidrv6QuadDefect "Fmt.cidrv6Q" "Fmt.cidrv6QuadDefect" "pat_cidrv6" (lookupRe "cidrv6" 0 true) [37] Fmt.nonHexLetters,
